@@ -2,7 +2,7 @@
 import json, sys, glob, jsonschema
 sch = json.load(open('/root/.vp/EVIDENCE.schema.json'))
 ok = True
-for p in sorted(glob.glob('/verif/evidence/*.json')):
+for p in sorted(glob.glob(__import__('os').path.join(__import__('os').path.dirname(__import__('os').path.dirname(__import__('os').path.abspath(__file__))), 'evidence', '*.json'))):
     try:
         jsonschema.validate(json.load(open(p)), sch); print('valid', p)
     except Exception as e:
